@@ -165,6 +165,15 @@ SetItem(n, t1, t2) ==
                                                ELSE Data(n)[l][i][j])], obj)
             /\ last' = [act |-> "SetItem", lhs |-> n, t1 |-> t1, t2 |-> t2, raises |-> ""]
 
+\* augmented assignment through the type-name accessor:  M[a, b] += 1  (reads the pair function, adds in place, writes it back):
+\* both (a,b) and (b,a) carry the new values afterwards
+AugItem(n, t1, t2) ==
+    /\ steps < MaxSteps /\ Exists(n) /\ t1 # 0 /\ t2 # 0
+    /\ Commit([heap EXCEPT ![obj[n].buf] =
+                   Mk(LAMBDA l, i, j : IF (i = t1 /\ j = t2) \/ (i = t2 /\ j = t1) THEN RAdd(Data(n)[l][t1][t2], ROne)
+                                        ELSE Data(n)[l][i][j])], obj)
+    /\ last' = [act |-> "AugItem", lhs |-> n, t1 |-> t1, t2 |-> t2, raises |-> ""]
+
 GetItem(n, t1, t2) ==
     /\ steps < MaxSteps /\ Exists(n)
     /\ UNCHANGED <<heap, obj>> /\ steps' = steps + 1
@@ -201,6 +210,7 @@ ValueNext ==
     \/ \E n \in Names, ip \in BOOLEAN : InvertAct(n, ip)
     \/ \E n \in Names : GetCopy(n) \/ Wrap(n)
     \/ \E n \in Names, t1 \in 0 .. R, t2 \in 0 .. R : SetItem(n, t1, t2) \/ GetItem(n, t1, t2)
+    \/ \E n \in Names, t1 \in 1 .. R, t2 \in 1 .. R : AugItem(n, t1, t2)
 
 \* the further operand kinds, one operation deep
 KindNext == \E op \in Ops, n \in Names, k \in MoreKinds, ip \in BOOLEAN : Bin(op, n, k, "-", ip)
